@@ -646,3 +646,373 @@ Proof.
   apply (chain_ok_mono (deriv_step_ok G m)); [|exact Hc].
   intros x y Hs. apply cfg_has_derivation_any. apply (deriv_step_ok_split _ _ _ _ Hs).
 Qed.
+
+(* ================================================================= reverse *)
+Section ReverseP.
+  Context {A : Type} `{Eqb A}.
+
+  Theorem check_dfa_reverse_sound (n : nat) (D : dfa A) (answer : nfa A) : check_dfa_reverse n D answer = true ->
+    seteq (dS D) (nS answer) /\ incl (dQ D) (nQ answer) /\
+    (forall q a q1, In ((q, a), q1) (dD D) -> In q (ndelta answer q1 a)) /\
+    ~ In (nq0 answer) (dQ D) /\ (forall q, In q (nF answer) <-> q = dq0 D) /\
+    (dfa_wf D -> nfa_wf answer ->
+     forall w, length w <= n -> Forall (fun a => In a (dS D)) w -> (nfa_lang answer w <-> dfa_lang D (rev w))).
+  Proof.
+    unfold check_dfa_reverse. rewrite !andb_true_iff. intros [[[[[HS HQ] HD] Hq0] HF] HL].
+    apply seteqb_seteq in HS. apply subsetb_incl in HQ. rewrite forallb_forall in HD.
+    apply negb_true_iff, mem_nIn in Hq0. apply seteqb_seteq in HF.
+    split; [exact HS|]. split; [exact HQ|]. split; [|split; [exact Hq0|split]].
+    - intros q a q1 Hi. specialize (HD _ Hi). cbn beta iota in HD. apply mem_In. exact HD.
+    - intros q. rewrite (HF q). cbn [In]. split; [intros [E|[]]; symmetry; exact E | intros ->; left; reflexivity].
+    - intros HwfD HwfN w Hl Hw.
+      destruct (nfa_words_lang answer n HwfN) as (L1 & EL1 & HL1).
+      destruct (dfa_words_lang D n HwfD) as (L2 & EL2 & HL2).
+      rewrite EL1, EL2 in HL. apply lang_ok_spec in HL. specialize (HL w).
+      rewrite l_reverse_spec, HL1, HL2, rev_length in HL.
+      assert (Hwa : Forall (fun a => In a (nS answer)) w) by (apply (Forall_seteq HS); exact Hw).
+      assert (Hwr : Forall (fun a => In a (dS D)) (rev w)).
+      { rewrite Forall_forall in *. intros a Ha. apply Hw. apply in_rev. exact Ha. }
+      tauto.
+  Qed.
+
+  Theorem own_reverse_accepted (fresh : A) (eps n : nat) (D : dfa A) (N : nfa A) :
+    dfa_wf D -> NoDup (map fst (dD D)) -> ~ In fresh (dQ D) -> dfa_reverse fresh eps D = Some N ->
+    check_dfa_reverse n D N = true.
+  Proof.
+    intros Hwf Hnd Hfresh EN.
+    assert (Heps : ~ In eps (dS D)).
+    { unfold dfa_reverse in EN. destruct (mem eps (dS D)) eqn:E; [discriminate|]. apply mem_nIn. exact E. }
+    destruct (@reverse_correct _ _ fresh eps D Hwf Hnd Hfresh Heps) as (N' & EN' & HwfN & ES & Eq0 & Hlang).
+    rewrite EN in EN'. inversion EN'; subst N'; clear EN'.
+    assert (EN2 : N = rvN fresh eps D).
+    { unfold dfa_reverse in EN. destruct (mem eps (dS D)); [discriminate|]. inversion EN. reflexivity. }
+    unfold check_dfa_reverse.
+    destruct (nfa_words_lang N n HwfN) as (L1 & EL1 & HL1).
+    destruct (dfa_words_lang D n Hwf) as (L2 & EL2 & HL2).
+    rewrite EL1, EL2. rewrite !andb_true_iff. split; [split; [split; [split; [split|]|]|]|].
+    - rewrite ES. apply seteqb_refl.
+    - apply subsetb_incl. intros q Hq. rewrite EN2. cbn [rvN nQ]. apply add_In. right; exact Hq.
+    - apply forallb_forall. intros [[q a] q1] Hi. apply mem_In. rewrite EN2.
+      apply (@rv_delta0 _ _ fresh eps D q1 a q Hfresh). left.
+      destruct Hwf as (_ & _ & Hd & _). destruct (Hd _ _ _ Hi) as (_ & Ha & Hq1).
+      split; [exact Hq1|]. split; [exact Ha|]. apply rv_src_In. exact Hi.
+    - apply negb_true_iff, mem_nIn. rewrite Eq0. exact Hfresh.
+    - rewrite EN2. cbn [rvN nF]. apply seteqb_refl.
+    - apply lang_ok_spec. intros w. rewrite l_reverse_spec, HL1, HL2, rev_length, ES.
+      assert (Hrev : Forall (fun a => In a (dS D)) w <-> Forall (fun a => In a (dS D)) (rev w)).
+      { rewrite !Forall_forall. split; intros Hf a Ha; apply Hf; [rewrite in_rev; exact Ha | rewrite <- in_rev; exact Ha]. }
+      split.
+      + intros (Hl & Hw & Hd). split; [exact Hl|]. split; [apply Hrev; exact Hw | apply (Hlang w Hw); exact Hd].
+      + intros (Hl & Hw & Hd). apply Hrev in Hw. split; [exact Hl|]. split; [exact Hw | apply (Hlang w Hw); exact Hd].
+  Qed.
+End ReverseP.
+
+(* ================================================================= minimal *)
+Lemma hd_error_rep (l : list nat) : l <> [] -> exists x, hd_error l = Some x /\ In x l.
+Proof. destruct l as [|x l]; [congruence|]. intros _. exists x. split; [reflexivity | left; reflexivity]. Qed.
+
+Lemma canon_nat_In' (l : list nat) (y : nat) : In y (canon_nat l) <-> In y l.
+Proof. apply canon_nat_In. Qed.
+
+Lemma id_perm (l : list nat) : Permutation ((fun l : list nat => l) l) l.
+Proof. apply Permutation_refl. Qed.
+
+Theorem check_dfa_minimal_sound {B} `{Eqb B} (n : nat) (D : dfa nat) (answer : dfa B) :
+  check_dfa_minimal n D answer = true ->
+  exists Dq, dfa_quotient canon_nat (fun l => l) (@hd_error nat) D = Some Dq /\
+    seteq (dS Dq) (dS answer) /\ length (dedup (dQ Dq)) = length (dedup (dQ answer)) /\
+    (dfa_wf D -> NoDup (dQ D) -> NoDup (dF D) -> dfa_wf answer ->
+       min_spec D Dq /\ seteq (dS D) (dS answer) /\ length (dedup (dQ answer)) = length (dQ Dq) /\
+       (forall w, length w <= n -> Forall (fun a => In a (dS D)) w -> (dfa_lang answer w <-> dfa_lang D w))).
+Proof.
+  unfold check_dfa_minimal.
+  destruct (dfa_quotient canon_nat (fun l => l) (@hd_error nat) D) as [Dq|] eqn:EQ; [|discriminate].
+  rewrite !andb_true_iff. intros [[HS Hlen] HL]. apply seteqb_seteq in HS. apply Nat.eqb_eq in Hlen.
+  exists Dq. split; [reflexivity|]. split; [exact HS|]. split; [exact Hlen|].
+  intros HwfD HndQ HndF Hwfa.
+  destruct (@dfa_quotient_spec nat _ canon_nat canon_nat_In' (fun l => l) (@hd_error nat) id_perm hd_error_rep D HwfD HndQ HndF)
+    as (Dq' & EQ' & Hms).
+  rewrite EQ in EQ'. inversion EQ'; subst Dq'; clear EQ'.
+  pose proof Hms as (HwfQ & ESq & HndDq & HlangQ & _).
+  rewrite ESq in HS.
+  split; [exact Hms|]. split; [exact HS|]. split; [rewrite <- Hlen, (NoDup_dedup HndDq); reflexivity|].
+  intros w Hl Hw.
+  destruct (dfa_words_lang answer n Hwfa) as (L1 & EL1 & HL1).
+  destruct (dfa_words_lang Dq n HwfQ) as (L2 & EL2 & HL2).
+  rewrite EL1, EL2 in HL. apply lang_ok_spec in HL. specialize (HL w). rewrite HL1, HL2, ESq in HL.
+  assert (Hwa : Forall (fun a => In a (dS answer)) w) by (apply (Forall_seteq HS); exact Hw).
+  rewrite <- (HlangQ w Hw). tauto.
+Qed.
+
+(* with every state of D reachable, an accepted answer has the least number of states among all DFAs for the language *)
+Theorem check_dfa_minimal_least {B C} `{Eqb B} `{Eqb C} (n : nat) (D : dfa nat) (answer : dfa B) (D2 : dfa C) :
+  check_dfa_minimal n D answer = true -> dfa_wf D -> NoDup (dQ D) -> NoDup (dF D) -> dfa_wf answer ->
+  (forall q, In q (dQ D) -> exists w, over D w /\ drun D (dq0 D) w = q) ->
+  dfa_wf D2 -> dS D2 = dS D -> (forall w, over D w -> (dfa_lang D w <-> dfa_lang D2 w)) ->
+  length (dedup (dQ answer)) <= length (dQ D2).
+Proof.
+  intros Hc HwfD HndQ HndF Hwfa Hreach Hwf2 ES2 HL2.
+  destruct (check_dfa_minimal_sound _ _ _ Hc) as (Dq & _ & _ & _ & Hrest).
+  destruct (Hrest HwfD HndQ HndF Hwfa) as (Hms & _ & Elen & _). rewrite Elen.
+  apply (@min_spec_minimal nat _ D Dq C _ D2 HwfD HndQ Hms Hreach Hwf2 ES2 HL2).
+Qed.
+
+Theorem own_minimal_accepted (n : nat) (D : dfa nat) (Dq : dfa (list nat)) :
+  dfa_wf D -> NoDup (dQ D) -> NoDup (dF D) ->
+  dfa_quotient canon_nat (fun l => l) (@hd_error nat) D = Some Dq -> check_dfa_minimal n D Dq = true.
+Proof.
+  intros HwfD HndQ HndF EQ.
+  destruct (@dfa_quotient_spec nat _ canon_nat canon_nat_In' (fun l => l) (@hd_error nat) id_perm hd_error_rep D HwfD HndQ HndF)
+    as (Dq' & EQ' & Hms).
+  rewrite EQ in EQ'. inversion EQ'; subst Dq'; clear EQ'.
+  destruct Hms as (HwfQ & _).
+  unfold check_dfa_minimal. rewrite EQ, seteqb_refl, Nat.eqb_refl.
+  destruct (dfa_words_lang Dq n HwfQ) as (L & EL & _). rewrite EL, lang_ok_refl. reflexivity.
+Qed.
+
+(* two automata satisfying min_spec for the same D have the same number of states *)
+Lemma mn_equiv_refl {A} `{Eqb A} (D : dfa A) p : mn_equiv D p p.
+Proof. intros w _. reflexivity. Qed.
+
+Lemma min_spec_count_le {A} `{Eqb A} (D : dfa A) (D1 D2 : dfa (list A)) :
+  dfa_wf D -> NoDup (dQ D) -> min_spec D D1 -> min_spec D D2 -> length (dQ D1) <= length (dQ D2).
+Proof.
+  intros Hwf Hnd Hm1 Hm2.
+  destruct (@min_spec_count_bounds _ _ D D2 Hwf Hnd Hm2) as [Hbound _].
+  pose proof Hm1 as (_ & _ & Hnd1 & _ & _ & Hne1 & _ & _ & Hsep1).
+  (* one representative per block of D1 *)
+  assert (Hreps : forall Q, incl Q (dQ D1) -> NoDup Q ->
+            exists l, length l = length Q /\ NoDup l /\ incl l (dQ D) /\
+                      (forall p, In p l -> exists S1, In S1 Q /\ In p S1) /\
+                      (forall p q, In p l -> In q l -> p <> q -> ~ mn_equiv D p q)).
+  { induction Q as [|S1 Q IH]; intros Hi HndQ.
+    - exists []. split; [reflexivity|]. split; [constructor|]. split; [intros x []|]. split; [intros p []|intros p q []].
+    - inversion HndQ as [|y ys Hnin HndQ']; subst.
+      destruct IH as (l & El & Hndl & Hil & Hl & Hsep); [intros x Hx; apply Hi; right; exact Hx | exact HndQ'|].
+      assert (HS1 : In S1 (dQ D1)) by (apply Hi; left; reflexivity).
+      destruct (Hne1 S1 HS1) as [Hne Hinc]. destruct S1 as [|p S1']; [congruence|].
+      assert (Hnew : forall x, In x l -> ~ mn_equiv D p x /\ ~ mn_equiv D x p).
+      { intros x Hx. destruct (Hl x Hx) as (S2 & HS2 & Hx2).
+        assert (HS2' : In S2 (dQ D1)) by (apply Hi; right; exact HS2).
+        split; intros Heq.
+        - assert (E : p :: S1' = S2) by (apply (Hsep1 (p :: S1') S2 p x HS1 HS2'); [left; reflexivity | exact Hx2 | exact Heq]).
+          subst S2. contradiction.
+        - assert (E : S2 = p :: S1') by (apply (Hsep1 S2 (p :: S1') x p HS2' HS1); [exact Hx2 | left; reflexivity | exact Heq]).
+          subst S2. contradiction. }
+      exists (p :: l). split; [cbn [length]; rewrite El; reflexivity|]. split; [|split; [|split]].
+      + constructor; [|exact Hndl]. intros Hp. destruct (Hnew p Hp) as [Hn _]. apply Hn. apply mn_equiv_refl.
+      + intros x [<-|Hx]; [apply Hinc; left; reflexivity | apply Hil; exact Hx].
+      + intros x [<-|Hx]; [exists (p :: S1'); split; [left; reflexivity | left; reflexivity]|].
+        destruct (Hl x Hx) as (S2 & HS2 & Hx2). exists S2. split; [right; exact HS2 | exact Hx2].
+      + intros x y [<-|Hx] [<-|Hy] Hxy.
+        * congruence.
+        * apply (Hnew y Hy).
+        * apply (Hnew x Hx).
+        * apply Hsep; assumption. }
+  destruct (Hreps (dQ D1) (incl_refl _) Hnd1) as (l & El & Hndl & Hil & _ & Hsep).
+  rewrite <- El. apply Hbound; [exact Hndl | exact Hil | exact Hsep].
+Qed.
+
+(* the Hopcroft result (for any admissible iteration order and pick) is accepted as well *)
+Theorem own_hopcroft_accepted (n : nat) (ordB : list (list nat) -> list (list nat)) (pick : picker (list nat * nat))
+  (D : dfa nat) (Dh : dfa (list nat)) :
+  (forall l, Permutation (ordB l) l) -> picker_ok pick ->
+  dfa_wf D -> NoDup (dQ D) -> NoDup (dF D) ->
+  dfa_hopcroft canon_nat ordB pick D = Some Dh -> check_dfa_minimal n D Dh = true.
+Proof.
+  intros Hord Hpick HwfD HndQ HndF EH.
+  destruct (@dfa_quotient_spec nat _ canon_nat canon_nat_In' (fun l => l) (@hd_error nat) id_perm hd_error_rep D HwfD HndQ HndF)
+    as (Dq & EQ & Hmq).
+  destruct (@dfa_hopcroft_spec nat _ canon_nat canon_nat_In' ordB pick Hord Hpick D HwfD HndQ HndF) as (Dh' & EH' & Hmh).
+  rewrite EH in EH'. inversion EH'; subst Dh'; clear EH'.
+  pose proof (@min_spec_count_le _ _ D Dq Dh HwfD HndQ Hmq Hmh) as Hle1.
+  pose proof (@min_spec_count_le _ _ D Dh Dq HwfD HndQ Hmh Hmq) as Hle2.
+  pose proof Hmq as (HwfQ & ESq & HndDq & HlangQ & _).
+  pose proof Hmh as (HwfH & ESh & HndDh & HlangH & _).
+  unfold check_dfa_minimal. rewrite EQ.
+  destruct (dfa_words_lang Dq n HwfQ) as (L2 & EL2 & HL2).
+  destruct (dfa_words_lang Dh n HwfH) as (L1 & EL1 & HL1).
+  rewrite EL1, EL2. rewrite !andb_true_iff. split; [split|].
+  - rewrite ESq, ESh. apply seteqb_refl.
+  - apply Nat.eqb_eq. rewrite (NoDup_dedup HndDq), (NoDup_dedup HndDh). lia.
+  - apply lang_ok_spec. intros w. rewrite HL1, HL2, ESq, ESh. split.
+    + intros (Hl & Hw & Hd). split; [exact Hl|]. split; [exact Hw|]. apply (HlangQ w Hw). apply (HlangH w Hw). exact Hd.
+    + intros (Hl & Hw & Hd). split; [exact Hl|]. split; [exact Hw|]. apply (HlangH w Hw). apply (HlangQ w Hw). exact Hd.
+Qed.
+
+(* ================================================================= NFA to DFA *)
+Theorem check_nfa_to_dfa_sound (N : nfa nat) (answer : nfa (list nat)) : check_nfa_to_dfa N answer = true ->
+  nQ answer <> [] /\ seteq (nS N) (nS answer) /\
+  (forall q, In q (nQ answer) -> incl q (nQ N)) /\
+  seteq (nq0 answer) (eclose N [nq0 N]) /\
+  (forall q, In q (nQ answer) -> (In q (nF answer) <-> exists x, In x q /\ In x (nF N))) /\
+  (forall q a, In q (nQ answer) -> In a (nS answer) ->
+     exists q1, ndelta answer q a = [q1] /\ seteq q1 (eclose N (big_union (map (fun x => ndelta N x a) q)))) /\
+  (nfa_wf N ->
+     (forall x, In x (nq0 answer) <-> eps_star N (nq0 N) x) /\
+     (forall q a q1, In q (nQ answer) -> In a (nS answer) -> In q1 (ndelta answer q a) ->
+        forall p, In p q1 <-> exists x x1, In x q /\ In x1 (ndelta N x a) /\ eps_star N x1 p)).
+Proof.
+  unfold check_nfa_to_dfa. rewrite !andb_true_iff. intros [[[[[HQ HS] Hsub] Hq0] HF] HD].
+  apply seteqb_seteq in HS. apply seteqb_seteq in Hq0. rewrite forallb_forall in Hsub, HF, HD.
+  assert (Hsub' : forall q, In q (nQ answer) -> incl q (nQ N)).
+  { intros q Hq. apply subsetb_incl. apply Hsub. exact Hq. }
+  assert (HD' : forall q a, In q (nQ answer) -> In a (nS answer) ->
+     exists q1, ndelta answer q a = [q1] /\ seteq q1 (eclose N (big_union (map (fun x => ndelta N x a) q)))).
+  { intros q a Hq Ha. specialize (HD q Hq). rewrite forallb_forall in HD. specialize (HD a Ha).
+    destruct (ndelta answer q a) as [|q1 [|q2 r]]; try discriminate.
+    exists q1. split; [reflexivity|]. apply seteqb_seteq. exact HD. }
+  split; [destruct (nQ answer); [discriminate HQ | discriminate]|].
+  split; [exact HS|]. split; [exact Hsub'|]. split; [exact Hq0|]. split; [|split; [exact HD'|]].
+  - intros q Hq. specialize (HF q Hq). apply Bool.eqb_prop in HF.
+    rewrite <- mem_In, HF. apply meetsb_spec.
+  - intros Hwf. split.
+    + intros x. rewrite (Hq0 x).
+      assert (Hi0 : incl [nq0 N] (nQ N)) by (intros y [<-|[]]; destruct Hwf as [Hin0 _]; exact Hin0).
+      rewrite (eclose_spec N [nq0 N] Hwf Hi0).
+      split; [intros (s & [<-|[]] & Hs); exact Hs | intros Hs; exists (nq0 N); split; [left; reflexivity | exact Hs]].
+    + intros q a q1 Hq Ha Hq1 p. destruct (HD' q a Hq Ha) as (q1' & E & Hse). rewrite E in Hq1.
+      destruct Hq1 as [<-|[]]. rewrite (Hse p).
+      assert (Hinc : incl (big_union (map (fun x => ndelta N x a) q)) (nQ N)).
+      { intros y Hy. apply big_union_In in Hy. destruct Hy as (l & Hl & Hy). apply in_map_iff in Hl.
+        destruct Hl as (x & <- & _). apply (ndelta_wf N x a Hwf). exact Hy. }
+      rewrite (eclose_spec N _ Hwf Hinc). split.
+      * intros (s & Hs & Hst). apply big_union_In in Hs. destruct Hs as (l & Hl & Hs). apply in_map_iff in Hl.
+        destruct Hl as (x & <- & Hx). exists x, s. auto.
+      * intros (x & x1 & Hx & Hx1 & Hst). exists x1. split; [|exact Hst].
+        apply big_union_In. exists (ndelta N x a). split; [apply in_map_iff; exists x; auto | exact Hx1].
+Qed.
+
+(* the library's DFA presented the way the exercise asks for it: as an automaton text whose state labels are sets *)
+Definition dfa_as_nfa {A} `{Eqb A} (eps : nat) (D : dfa A) : nfa A :=
+  mkNFA (dQ D) (dS D) (map (fun e => (fst e, [snd e])) (dD D)) (dq0 D) (dF D) eps.
+
+Lemma dfa_as_nfa_delta {A} `{Eqb A} (eps : nat) (D : dfa A) q a :
+  ndelta (dfa_as_nfa eps D) q a = match ddelta D q a with Some q1 => [q1] | None => [] end.
+Proof.
+  unfold ndelta, ddelta, dfa_as_nfa. cbn [nD].
+  rewrite (lookup_map_val (fun v : A => [v]) (q, a) (dD D)). destruct (lookup (q, a) (dD D)); reflexivity.
+Qed.
+
+Theorem own_nfa2dfa_accepted (eps : nat) (N : nfa nat) (D : dfa (list nat)) :
+  nfa_wf N -> nfa_det N = Some D -> check_nfa_to_dfa N (dfa_as_nfa eps D) = true.
+Proof.
+  intros Hwf E. unfold nfa_det in E. rewrite to_dfa_unfold in E.
+  destruct (n2d_loop canon_nat N (S (2 ^ length (nQ N))) (st0 canon_nat N)) as [[[Q delta] F]|] eqn:El; [|discriminate].
+  inversion E; subst D; clear E.
+  destruct (st0_inv canon_nat N Hwf) as [HC0 HR0].
+  destruct (loop_inv canon_nat N Hwf _ _ _ _ _ HC0 HR0 El) as [HC HR].
+  pose proof HC as (C1 & _ & _ & C4 & _ & C6 & _).
+  unfold check_nfa_to_dfa. cbn [dfa_as_nfa nQ nS nq0 nF dQ dS dq0 dF].
+  rewrite !andb_true_iff. split; [split; [split; [split; [split|]|]|]|].
+  - destruct Q; [destruct C1 | reflexivity].
+  - apply seteqb_refl.
+  - apply forallb_forall. intros X HX. apply subsetb_incl. destruct (C4 X HX) as (Y & HY & ->).
+    intros y Hy. rewrite canon_nat_In in Hy. apply HY. exact Hy.
+  - apply seteqb_seteq. intros y. unfold Q0. apply canon_nat_In.
+  - apply forallb_forall. intros X HX. rewrite Bool.eqb_true_iff.
+    destruct (meetsb X (nF N)) eqn:Em.
+    + apply mem_In. apply C6. split; assumption.
+    + apply mem_nIn. intros Hc. apply C6 in Hc. destruct Hc as [_ Hc]. congruence.
+  - apply forallb_forall. intros X HX. apply forallb_forall. intros a Ha.
+    rewrite dfa_as_nfa_delta. destruct (final_delta canon_nat N Q delta F HC HR X a HX Ha) as [Ed _].
+    rewrite Ed. apply seteqb_seteq. intros y. unfold T. apply canon_nat_In.
+Qed.
+
+(* ================================================================= own word lists *)
+Theorem own_words_accepted (L : list word) (nstates max_states : nat) :
+  max_states = 0 \/ nstates <= max_states -> check_language_from_words L nstates max_states L = true.
+Proof. intros Hm. apply check_language_from_words_spec. split; [exact Hm | apply seteq_refl]. Qed.
+
+Theorem own_accepts_rejects_accepted (va vr : list bool) :
+  Forall (fun b => b = true) va -> Forall (fun b => b = false) vr -> check_accepts_rejects va vr = true.
+Proof. intros Ha Hr. apply check_accepts_rejects_sound. split; assumption. Qed.
+
+(* ================================================================= Chomsky phases *)
+Theorem check_chomsky_sound (ordV : list nat -> list nat) (stream : list nat) (G G1 : cfg) (phase start n : nat) :
+  check_chomsky ordV stream G G1 phase start n = true ->
+  (1 <= phase -> gS G1 = start) /\
+  (2 <= phase -> forall r, In r (gR G1) -> rrhs r = [] -> rvar r = gS G1) /\
+  (3 <= phase -> forall r, In r (gR G1) -> is_unit r = false) /\
+  (4 <= phase -> forall r, In r (gR G1) -> length (rrhs r) <= 2) /\
+  (5 <= phase -> forall r, In r (gR G1) -> alt_is_chomsky (rrhs r) = true) /\
+  ((forall l, Permutation (ordV l) l) ->
+   cfg_wf G -> (forall x, In x (gV G) -> ~ In x (gSg G)) -> In (gS G) (gV G) -> (forall x, In x stream -> ~ In x (gSg G)) ->
+   cfg_wf G1 -> (forall x, In x (gV G1) -> ~ In x (gSg G1)) -> In (gS G1) (gV G1) -> (forall x, In x stream -> ~ In x (gSg G1)) ->
+   forall w, length w <= n -> (cfg_lang G1 w <-> cfg_lang G w)).
+Proof.
+  unfold check_chomsky.
+  destruct (cfg_words ordV stream G1 n) as [A1|] eqn:E1; [|discriminate].
+  destruct (cfg_words ordV stream G n) as [A2|] eqn:E2; [|discriminate].
+  rewrite !andb_true_iff, !orb_true_iff, !Nat.ltb_lt, !forallb_forall.
+  intros [[[[[HL H1] H2] H3] H4] H5].
+  split; [|split; [|split; [|split; [|split]]]].
+  - intros Hp. destruct H1 as [H1|H1]; [lia|]. apply Nat.eqb_eq. exact H1.
+  - intros Hp r Hr Er. destruct H2 as [H2|H2]; [lia|]. specialize (H2 r Hr). rewrite Er in H2. apply Nat.eqb_eq. exact H2.
+  - intros Hp r Hr. destruct H3 as [H3|H3]; [lia|]. apply negb_true_iff. apply H3. exact Hr.
+  - intros Hp r Hr. destruct H4 as [H4|H4]; [lia|]. apply Nat.leb_le. apply H4. exact Hr.
+  - intros Hp r Hr. destruct H5 as [H5|H5]; [lia|]. apply H5. exact Hr.
+  - intros Hperm Hwf Hdj HS Hst Hwf1 Hdj1 HS1 Hst1 w Hl.
+    apply lang_ok_spec in HL. specialize (HL w).
+    rewrite (@cfg_words_exact ordV stream G1 n A1 Hwf1 Hdj1 HS1 Hperm Hst1 E1 w) in HL.
+    rewrite (@cfg_words_exact ordV stream G n A2 Hwf Hdj HS Hperm Hst E2 w) in HL. tauto.
+Qed.
+
+(* the library's own conversion passes all five phase tests (and, being language preserving, the language test) *)
+Theorem own_chomsky_phases (ordV : list nat -> list nat) (stream : list nat) (G G1 : cfg) (rest : list nat) :
+  (forall l, Permutation (ordV l) l) ->
+  cfg_wf G -> (forall x, In x (gV G) -> ~ In x (gSg G)) -> In (gS G) (gV G) -> (forall x, In x stream -> ~ In x (gSg G)) ->
+  to_chomsky ordV stream G = Some (G1, rest) -> is_chomsky G1 /\ cfg_wf G1 /\ forall w, cfg_lang G1 w <-> cfg_lang G w.
+Proof.
+  intros Hperm Hwf Hdj HS Hst Et.
+  destruct (@to_chomsky_correct ordV stream G G1 rest Hwf Hdj HS Hperm Hst Et) as (Hwf' & Hc' & _ & _ & Hl).
+  split; [exact Hc'|]. split; [exact Hwf'|]. exact Hl.
+Qed.
+
+Theorem own_chomsky_accepted (ordV : list nat -> list nat) (stream : list nat) (G G1 : cfg) (rest : list nat) (phase n : nat) :
+  (forall l, Permutation (ordV l) l) ->
+  cfg_wf G -> (forall x, In x (gV G) -> ~ In x (gSg G)) -> In (gS G) (gV G) -> (forall x, In x stream -> ~ In x (gSg G)) ->
+  to_chomsky ordV stream G = Some (G1, rest) -> check_chomsky ordV stream G G1 phase (gS G1) n = true.
+Proof.
+  intros Hperm Hwf Hdj HS Hst Et.
+  destruct (own_chomsky_phases ordV stream Hperm Hwf Hdj HS Hst Et) as (Hc1 & Hwf1 & Hl).
+  unfold check_chomsky.
+  assert (E1 : cfg_words ordV stream G1 n = Some (cnf_words G1 n)).
+  { unfold cfg_words. rewrite (proj2 (is_chomsky_b_spec G1) Hc1). reflexivity. }
+  rewrite E1.
+  assert (X2 : forallb (fun r => match rrhs r with [] => Nat.eqb (rvar r) (gS G1) | _ => true end) (gR G1) = true).
+  { apply forallb_forall. intros r Hr. destruct (Hc1 r Hr) as [[E Ev]|[(a & E)|(B & C & E & _)]]; rewrite E; [|reflexivity|reflexivity].
+    apply Nat.eqb_eq. exact Ev. }
+  assert (X3 : forallb (fun r => negb (is_unit r)) (gR G1) = true).
+  { apply forallb_forall. intros r Hr. unfold is_unit.
+    destruct (Hc1 r Hr) as [[E Ev]|[(a & E)|(B & C & E & _)]]; rewrite E; reflexivity. }
+  assert (X4 : forallb (fun r => Nat.leb (length (rrhs r)) 2) (gR G1) = true).
+  { apply forallb_forall. intros r Hr. destruct (Hc1 r Hr) as [[E Ev]|[(a & E)|(B & C & E & _)]]; rewrite E; reflexivity. }
+  assert (X5 : forallb (fun r => alt_is_chomsky (rrhs r)) (gR G1) = true).
+  { apply forallb_forall. intros r Hr. destruct (Hc1 r Hr) as [[E Ev]|[(a & E)|(B & C & E & _)]]; rewrite E; reflexivity. }
+  assert (XL : exists A2, cfg_words ordV stream G n = Some A2 /\ lang_ok (cnf_words G1 n) A2 = true).
+  { unfold cfg_words. destruct (is_chomsky_b G) eqn:Ec.
+    - exists (cnf_words G n). split; [reflexivity|]. apply lang_ok_spec. intros w.
+      apply is_chomsky_b_spec in Ec. rewrite (cnf_words_exact G1 n w Hc1), (cnf_words_exact G n w Ec), (Hl w). reflexivity.
+    - rewrite Et. exists (cnf_words G1 n). split; [reflexivity | apply lang_ok_refl]. }
+  destruct XL as (A2 & E2 & HL). rewrite E2, HL, X2, X3, X4, X5, Nat.eqb_refl, !orb_true_r. reflexivity.
+Qed.
+
+(* the criterion of the minimisation exercise in one statement: same alphabet, same language up to length n, and the
+   number of distinct states of the answer is the number of Myhill-Nerode classes of the states of D *)
+Theorem check_dfa_minimal_criterion {B} `{Eqb B} (n : nat) (D : dfa nat) (answer : dfa B) :
+  check_dfa_minimal n D answer = true -> dfa_wf D -> NoDup (dQ D) -> NoDup (dF D) -> dfa_wf answer ->
+  seteq (dS D) (dS answer) /\
+  (forall w, length w <= n -> Forall (fun a => In a (dS D)) w -> (dfa_lang answer w <-> dfa_lang D w)) /\
+  (exists Dq, dfa_quotient canon_nat (fun l => l) (@hd_error nat) D = Some Dq /\ min_spec D Dq /\
+              length (dedup (dQ answer)) = length (dQ Dq)) /\
+  (forall l, NoDup l -> incl l (dQ D) -> (forall p q, In p l -> In q l -> p <> q -> ~ mn_equiv D p q) ->
+     length l <= length (dedup (dQ answer))) /\
+  length (dedup (dQ answer)) <= length (dQ D).
+Proof.
+  intros Hc HwfD HndQ HndF Hwfa.
+  destruct (check_dfa_minimal_sound _ _ _ Hc) as (Dq & EQ & _ & _ & Hrest).
+  destruct (Hrest HwfD HndQ HndF Hwfa) as (Hms & HS & Elen & HL).
+  destruct (@min_spec_count_bounds _ _ D Dq HwfD HndQ Hms) as [Hb1 Hb2].
+  split; [exact HS|]. split; [exact HL|]. split; [exists Dq; auto|]. rewrite Elen. split; [exact Hb1 | exact Hb2].
+Qed.
